@@ -117,6 +117,10 @@ def configurations(tier):
             for env in envs:
                 for ld in loads:
                     out.append((pre, env, ld))
+    # IPython installed but not running must change nothing (a few stage-3 / stage-2 configurations)
+    for env in (None, "nosuchbackend", "snarkjs"):
+        for ldb in (dict(flatbuffers=True, qaptools=False, libsnark=False), dict(flatbuffers=False, qaptools=True, libsnark=False)):
+            out.append(((), env, dict(ldb, ipython=True)))
     seen, uniq = set(), []
     for pre, env, ld in out:
         k = (pre, env, tuple(sorted(ld.items())))
@@ -148,6 +152,8 @@ def main():
 
 def run_probe(pre, env, ld, wd, autoprove_off=False):
     shims = [s for s in ("flatbuffers", "libsnark") if ld[s]]
+    if ld.get("ipython"):
+        shims.append("ipython")        # IPython importable, but the script is a plain script (no get_ipython in builtins)
     extra = {}
     if env is not None:
         extra["PYSNARK_BACKEND"] = env
@@ -174,7 +180,9 @@ def worker(job):
             shutil.rmtree(wd, ignore_errors=True)
         exp = expected(pre, env, ld)
         envcls = "unset" if env is None else ("known" if env in NAME2MOD else "unknown")
-        ldcls = "".join(k[0] for k in sorted(ld) if ld[k]) or "none"
+        ldcls = "".join(k[0] for k in sorted(ld) if ld[k] and k != "ipython") or "none"
+        if ld.get("ipython"):
+            ldcls += "+ipython-installed"
         cell = "stage%d|env-%s|load-%s|pre%d" % (exp["stage"], envcls, ldcls, len(pre))
         det = dict(preimport=pre, env=env, loadable=ld, exit_status=rc, report=rep, stdout_tail=out[-300:], stderr_tail=err[-400:], expected=dict(exp, names=sorted(exp.get("names", []))))
         R.case(cell=cell, key=(tuple(pre), env, ldcls))
